@@ -49,7 +49,9 @@ def run_property(pid, tier, repo, work, quiet=False):
         # disappear through refactoring (helpers extracted, sites merged) before the check fails closed
         counted_floor = use.get("floor", 1)
         floor = counted_floor if counted_floor <= 2 else counted_floor - max(1, counted_floor // 4)
+        fns = sorted(set(i.key.split(":", 2)[1] if i.key.count(":") >= 2 else "" for i in items))
         rep = {"rule": use["rule"], "clause": use.get("clause", ""), "instances": len(items),
+               "functions_analysed": len(fns), "functions_sample": fns[:5],
                "decided": len(definite), "holds": len([i for i in items if i.verdict == HOLDS]),
                "violates": len(bad), "undecided": len(items) - len(definite), "floor": floor, "counted_on_triaged_tree": counted_floor}
         rule_reports.append(rep)
